@@ -588,6 +588,7 @@ func partEqual(r *ev.Run, nGroups int) {
 	results := make([]*groupResult, len(fixedGroups)+nGroups)
 	selfchecks := make([][]string, len(results))
 	sizes := make([]int, len(results))
+	var sampled [4][]string
 	ev.Parallel(len(results), runtime.NumCPU(), func(i int) {
 		var b *builder
 		if i < len(fixedGroups) {
@@ -602,13 +603,16 @@ func partEqual(r *ev.Run, nGroups int) {
 		sizes[i] = len(b.items)
 		results[i] = decideGroup(b.items, false)
 		if i >= len(fixedGroups) && i < len(fixedGroups)+4 {
-			var ts []string
 			for _, it := range b.items {
-				ts = append(ts, it.class+": "+it.s)
+				sampled[i-len(fixedGroups)] = append(sampled[i-len(fixedGroups)], it.class+": "+it.s)
 			}
-			r.Sample(map[string]any{"group": i - len(fixedGroups), "texts": ts})
 		}
 	})
+	for i, ts := range sampled {
+		if ts != nil {
+			r.Sample(map[string]any{"group": i, "texts": ts})
+		}
+	}
 	// merge in group order so that the run is reproducible
 	totals := map[string]int{}
 	texts := 0
@@ -872,9 +876,6 @@ func decideEnum(c enumCase, verbose bool) (vs []violation, counts map[string]int
 		if ok {
 			w.Pair = []string{a.s, b.s}
 			switch {
-			case containsArrayWithNull(a.v):
-				// the same defect as array/null-element-error in part 1
-				cause = "array-null-element"
 			case hasInexactFloat(a.v) || hasInexactFloat(b.v):
 				// a number that float64 cannot hold exactly is involved: the two spellings are
 				// turned into different texts before they are compared
@@ -882,6 +883,9 @@ func decideEnum(c enumCase, verbose bool) (vs []violation, counts map[string]int
 			case hasRawLineBreakChar(a.s) || hasRawLineBreakChar(b.s):
 				// U+0085/U+2028/U+2029 written raw inside a JSON string: the YAML reader folds them
 				cause = "raw-line-break-char-in-string"
+			case containsArrayWithNull(a.v):
+				// the same defect as array/null-element-error in part 1 (fixed in 3c0640d6)
+				cause = "array-null-element"
 			}
 		}
 		vs = append(vs, violation{"enum/duplicate-accepted/" + cause, fmt.Sprintf("enum %q accepted although members %q denote the same value", texts(c.members), w.Pair), w})
